@@ -241,8 +241,11 @@ where
     {
         loop {
             match self.peek()? {
-                Some(b' ') | Some(b'\n') | Some(b'\t') | Some(b'\r') | Some(0x0C) | Some(b')')
-                | Some(b']') | Some(b'(') | Some(b'[') | Some(b';') | None => {
+                next @ (Some(b' ') | Some(b'\n') | Some(b'\t') | Some(b'\r') | Some(0x0C)
+                | Some(b')') | Some(b']') | Some(b'(') | Some(b'[') | Some(b';') | None) => {
+                    if next.is_none() && is_truncated_symbol(scratch) {
+                        return error(self, ErrorCode::EofWhileParsingValue);
+                    }
                     if scratch == b"." {
                         return error(self, ErrorCode::InvalidSymbol);
                     }
@@ -404,18 +407,24 @@ impl<'a> SliceRead<'a> {
 
         loop {
             match self.peek_byte() {
-                None | Some(b' ') | Some(b'\n') | Some(b'\t') | Some(b'\r') | Some(0x0C)
-                | Some(b')') | Some(b']') | Some(b'(') | Some(b'[') | Some(b';') => {
+                next @ (None | Some(b' ') | Some(b'\n') | Some(b'\t') | Some(b'\r') | Some(0x0C)
+                | Some(b')') | Some(b']') | Some(b'(') | Some(b'[') | Some(b';')) => {
                     if scratch.is_empty() {
                         // Fast path: return a slice of the raw S-expression without any
                         // copying.
                         let borrowed = &self.slice[start..self.index];
+                        if next.is_none() && is_truncated_symbol(borrowed) {
+                            return error(self, ErrorCode::EofWhileParsingValue);
+                        }
                         if borrowed == b"." {
                             return error(self, ErrorCode::InvalidSymbol);
                         }
                         return result(self, borrowed).map(Reference::Borrowed);
                     } else {
                         scratch.extend_from_slice(&self.slice[start..self.index]);
+                        if next.is_none() && is_truncated_symbol(scratch) {
+                            return error(self, ErrorCode::EofWhileParsingValue);
+                        }
                         if scratch == b"." {
                             return error(self, ErrorCode::InvalidSymbol);
                         }
@@ -721,10 +730,34 @@ fn as_str<'de, 's, R: Read<'de>>(read: &R, slice: &'s [u8]) -> Result<&'s str> {
     str::from_utf8(slice).or_else(|_| error(read, ErrorCode::InvalidUnicodeCodePoint))
 }
 
+/// Checks if a symbol that runs up to the end of the input may be the
+/// beginning of a longer one: a lone dot, or a name cut off inside a multibyte
+/// character.
+fn is_truncated_symbol(bytes: &[u8]) -> bool {
+    bytes == b"." || matches!(str::from_utf8(bytes), Err(e) if e.error_len().is_none())
+}
+
 fn as_char<'de, 's, R: Read<'de> + ?Sized>(read: &R, value: u32) -> Result<char> {
     match char::from_u32(value) {
         None => error(read, ErrorCode::InvalidUnicodeCodePoint),
         Some(c) => Ok(c),
+    }
+}
+
+/// Converts the value of an escape sequence with an open-ended number of
+/// digits into a character. At the end of the input, an invalid value may be
+/// the beginning of a valid one, so that case is reported as EOF.
+fn as_char_or_eof<'de, R: Read<'de> + ?Sized>(
+    read: &mut R,
+    value: u32,
+    eof: ErrorCode,
+) -> Result<char> {
+    match char::from_u32(value) {
+        Some(c) => Ok(c),
+        None => match read.peek()? {
+            Some(_) => error(read, ErrorCode::InvalidUnicodeCodePoint),
+            None => error(read, eof),
+        },
     }
 }
 
@@ -861,17 +894,13 @@ where
     F: FnOnce(&mut R) -> Result<u32>,
 {
     let n = decode(read)?;
-    match char::from_u32(n) {
-        Some(c) => {
-            if n > 255 {
-                scratch.extend_from_slice(c.encode_utf8(&mut [0_u8; 4]).as_bytes());
-                Ok(ElispEscape::Multibyte)
-            } else {
-                scratch.push(n as u8);
-                Ok(ElispEscape::Unibyte)
-            }
-        }
-        None => error(read, ErrorCode::InvalidUnicodeCodePoint),
+    let c = as_char_or_eof(read, n, ErrorCode::EofWhileParsingString)?;
+    if n > 255 {
+        scratch.extend_from_slice(c.encode_utf8(&mut [0_u8; 4]).as_bytes());
+        Ok(ElispEscape::Multibyte)
+    } else {
+        scratch.push(n as u8);
+        Ok(ElispEscape::Unibyte)
     }
 }
 
@@ -885,13 +914,9 @@ where
     F: FnOnce(&mut R) -> Result<u32>,
 {
     let n = decode(read)?;
-    match char::from_u32(n) {
-        Some(c) => {
-            scratch.extend_from_slice(c.encode_utf8(&mut [0_u8; 4]).as_bytes());
-            Ok(ElispEscape::Multibyte)
-        }
-        None => error(read, ErrorCode::InvalidUnicodeCodePoint),
-    }
+    let c = as_char_or_eof(read, n, ErrorCode::EofWhileParsingString)?;
+    scratch.extend_from_slice(c.encode_utf8(&mut [0_u8; 4]).as_bytes());
+    Ok(ElispEscape::Multibyte)
 }
 
 /// Parses an Emacs Lisp escape sequence and appends it into the scratch
@@ -989,10 +1014,7 @@ fn parse_r6rs_char<'de, R: Read<'de> + ?Sized>(
     let initial = next_or_eof_char(read)?;
     if initial == b'x' {
         match decode_r6rs_char_hex_escape(read)? {
-            Some(n) => match char::from_u32(n) {
-                Some(c) => Ok(c),
-                None => error(read, ErrorCode::InvalidUnicodeCodePoint),
-            },
+            Some(n) => as_char_or_eof(read, n, ErrorCode::EofWhileParsingCharacterConstant),
             None => Ok('x'),
         }
     } else if initial > 0x7F {
@@ -1014,8 +1036,10 @@ fn parse_r6rs_char<'de, R: Read<'de> + ?Sized>(
         scratch.push(initial);
         scratch.push(next);
         read.discard();
+        let mut at_end = true;
         while let Some(next) = read.peek()? {
             if is_delimiter(next) {
+                at_end = false;
                 break;
             }
             scratch.push(next);
@@ -1034,10 +1058,28 @@ fn parse_r6rs_char<'de, R: Read<'de> + ?Sized>(
             b"esc" => Ok('\x1B'),
             b"space" => Ok(' '),
             b"delete" => Ok('\x7F'),
+            name if at_end && CHARACTER_NAMES.iter().any(|n| n.starts_with(name)) => {
+                error(read, ErrorCode::EofWhileParsingCharacterConstant)
+            }
             _ => error(read, ErrorCode::InvalidCharacterConstant),
         }
     }
 }
+
+static CHARACTER_NAMES: [&[u8]; 12] = [
+    b"nul",
+    b"alarm",
+    b"backspace",
+    b"tab",
+    b"linefeed",
+    b"newline",
+    b"vtab",
+    b"page",
+    b"return",
+    b"esc",
+    b"space",
+    b"delete",
+];
 
 /// Expects a `#\x` sequence has just been consumed; returns the value of the
 /// subsequent hex digits, or `None`, if the sequence was empty.
@@ -1148,11 +1190,15 @@ fn decode_elisp_char_escape<'de, R: Read<'de> + ?Sized>(
         }
         b'x' => {
             // Hexadecimal escape, allows arbitrary number of hex digits.
-            decode_elisp_hex_escape(read).and_then(|n| as_char(read, n))
+            decode_elisp_hex_escape(read).and_then(|n| {
+                as_char_or_eof(read, n, ErrorCode::EofWhileParsingCharacterConstant)
+            })
         }
         b'0' | b'1' | b'2' | b'3' | b'4' | b'5' | b'6' | b'7' => {
             // Octal escape, allows arbitrary number of octale digits.
-            decode_elisp_octal_escape(read, ch).and_then(|n| as_char(read, n))
+            decode_elisp_octal_escape(read, ch).and_then(|n| {
+                as_char_or_eof(read, n, ErrorCode::EofWhileParsingCharacterConstant)
+            })
         }
         next => {
             if next > 0x7F {
@@ -1238,7 +1284,7 @@ pub(crate) fn decode_utf8_sequence<'de, R: Read<'de> + ?Sized>(
     for _ in 0..len {
         let b = match read.next()? {
             Some(c) => c,
-            None => return error(read, ErrorCode::InvalidUnicodeCodePoint),
+            None => return error(read, ErrorCode::EofWhileParsingValue),
         };
         scratch.push(b);
     }
